@@ -63,6 +63,7 @@ func caseList(quick bool) ([]segment, int) {
 			segment{Kind: "wire-resp-nodes", Net: n, Count: q(200, 4000)},
 			segment{Kind: "wire-resp-content", Net: n, Count: q(200, 4000)},
 			segment{Kind: "wire-resp-offerresp", Net: n, Count: q(200, 4000)},
+			segment{Kind: "api", Net: n, Count: q(48, 2400)},
 			segment{Kind: "wire-stream", Net: n, Count: q(24, 300)},
 			segment{Kind: "findcontent-stored", Net: n, Count: q(48, 480)},
 		)
@@ -114,7 +115,7 @@ func main() {
 func parentRun(r *lib.Run) {
 	segs, total := caseList(r.Quick() || os.Getenv("VERIF_C01_RACE") == "1")
 	r.SetRule("cases = seed-determined list over {TALKREQ on each portal sub-protocol (direct handler call and over the in-memory discv5 link), the four TALKRESP kinds (direct response processors and over the wire as answers to the node's own requests), " +
-		"uTP stream bodies after a genuine ACCEPT, raw uTP packets on the utp channel, (content key, content) through ValidateContent and, when accepted, ContentStorage.Put, ContentStorage.Get for peer-chosen keys, well-formed requests from peers with established sessions sent back to back while a fresh node starts and stops, and stateful sequences that interleave store / look up / FINDCONTENT / OFFER / offered-stream steps around the genuine vectors and their numeric neighbours (followed by a probe that the network's content loop still consumes its queue)} x {history, beacon, state nodes with real storage adapters and validators}; " +
+		"uTP stream bodies after a genuine ACCEPT, raw uTP packets on the utp channel, (content key, content) through ValidateContent and, when accepted, ContentStorage.Put, ContentStorage.Get for peer-chosen keys, the sub-protocol's JSON-RPC methods (TraceOffer, Offer, FindContent, FindNodes, Ping, the recursive lookups, AddEnr(s), GetEnr, LookupEnr, Store, LocalContent, Gossip, DeleteEnr) against a peer that answers with hostile bytes, well-formed requests from peers with established sessions sent back to back while a fresh node starts and stops, and stateful sequences that interleave store / look up / FINDCONTENT / OFFER / offered-stream steps around the genuine vectors and their numeric neighbours (followed by a probe that the network's content loop still consumes its queue)} x {history, beacon, state nodes with real storage adapters and validators}; " +
 		"inputs: valid messages, structure-aware mutations, boundary lengths 0/1/2, unknown codes/selectors, the full key matrix (type byte 0x00..0xff x lengths 0,1,2,8,9,10,32,33,34,41,42,64,65,2048), mutated genuine vectors. " +
 		"distinct_nontrivial = distinct (entry point, network, input) that reached the handler / processor / validator / adapter")
 	r.Assume("a crash is a Go panic or fatal error of the process while handling a logged case, or a recovered panic on the calling goroutine; a wedge is a handling call that has not returned after 45 s (the longest legitimate path is a 15 s uTP dial)")
